@@ -44,7 +44,10 @@ SUPPORTED = [(1, 6, 0), (1, 7, 1), (1, 9, 1), (1, 11, 1), (1, 13, 0), (1, 13, 1)
              (1, 18, 0), (2, 18, 0), (2, 20, 1), (2, 20, 2), (2, 20, 3), (2, 21, 0), (2, 21, 1), (2, 21, 2), (3, 0, 0)]
 
 
-PRESENCES = ["-", "L", "P", "D", "LP", "LD", "PD", "LPD", "X", "XLPD"]
+PRESENCES = ["-", "L", "P", "D", "LP", "LD", "PD", "LPD", "X", "XLPD",
+             # E = an empty Database2 directory: the Model / Spec have no such bit (the letter is ignored there), so the
+             # outcome must be the one of the same files without it (seeded C13-4, C16-4)
+             "E", "LE", "PE", "LPE"]
 W32 = 2 ** 32
 
 
@@ -88,6 +91,15 @@ def tie(ctx):
             cases.add((pres, 1, a, b + k * W32, c, 1))
             cases.add((pres, 1, a, b, c + k * W32, 0))
             cases.add((pres, 1, a + k * W32, b + k * W32, c + k * W32, 1))
+    # triples that COLLIDE with a supported one under a positional folding maj*B1 + min*B2 + pat (decimal, binary and
+    # byte bases): a detector that compares one folded number instead of the three components accepts them
+    for (a, b, c) in (SUPPORTED if thorough else rng.sample(SUPPORTED, 9)):
+        pres = "LP" if a == 1 else "D"
+        for (B1, B2) in ((10 ** 6, 10 ** 3), (10 ** 4, 10 ** 2), (100, 10), (2 ** 16, 2 ** 8), (2 ** 20, 2 ** 10), (2 ** 32, 2 ** 16)):
+            q = B1 // B2
+            for t in ((a, b - 1, c + B2), (a, b + 1, c - B2), (a - 1, b + q, c), (a + 1, b - q, c),
+                      (a - 1, b, c + B1), (a + 1, b, c - B1), (a - 1, b + q - 1, c + B2)):
+                cases.add((pres, 1) + t + (rng.randrange(2),))
     cases = sorted(c for c in cases if all(-2 ** 63 <= v < 2 ** 63 for v in c[2:5]))
     lines = ["plant2 %s %d %d %d %d %d" % c for c in cases]
     scripts = runner.shard(lines, NCPU)
@@ -122,7 +134,7 @@ def tie(ctx):
         "rule": "real directories planted by a plain sqlite3 connection: presence sets over {directory, m.db, p.db, "
                 "Database2/m.db}, 0/1/2 sqlite_master entries named Information, version triples = every supported "
                 "triple and its neighbours, a box (-1..4)x(-1..23)x(-1..4) (sampled in quick tier, complete in thorough), "
-                "both markers, 64-bit values far away and values congruent to a supported component modulo 2^32; real "
+                "both markers, 64-bit values far away and values congruent to a supported component modulo 2^32, triples that collide with a supported one under a positional folding maj*B1+min*B2+pat (bases 10/100/1000, 2^8/2^10/2^16), presence sets with an EMPTY Database2 directory; real "
                 "load_database outcome vs the generated loadDatabaseGen and vs the Spec specLoad; non-trivial = cases that "
                 "load successfully",
         "samples": lines[:3] + lines[-2:],
